@@ -1,6 +1,7 @@
 """C20 - Coq side: theorems, (T) K9 validation by sampling, (M) model correspondence."""
 from __future__ import annotations
 
+import os
 import sys
 import types
 import warnings
@@ -379,7 +380,7 @@ def coq_part(ctx: vlib.Ctx):
         return
     # (T) validation
     cases, descr = k9_cases(ctx, ctx.budget(150, 600))
-    bad, log = vlib.coq_bad_idx("c20_k9", "PyK_schema SchemaGen K9Proofs SchemaCorr", "From VerifGen Require Import K9.", "", cases,
+    bad, log = vlib.coq_bad_idx(f"c20_k9_{ctx.seed}_{os.getpid()}", "PyK_schema SchemaGen K9Proofs SchemaCorr", "From VerifGen Require Import K9.", "", cases,
                                 "k9_ok", "k9case", shard=300, needs=["theories/SchemaCorr.vo"])
     if bad is None:
         ctx.correspondence("K9-translation-vs-python", len(cases), -1, log)
@@ -391,7 +392,7 @@ def coq_part(ctx: vlib.Ctx):
     ctx.count(n=len(cases))
     # (M) model vs implementation
     cases, descr = m_cases(ctx, ctx.budget(250, 2500))
-    bad, log = vlib.coq_bad_idx("c20_model", "PyK_schema SchemaGen K9Proofs SchemaCorr", "From VerifGen Require Import K9.", "", cases,
+    bad, log = vlib.coq_bad_idx(f"c20_model_{ctx.seed}_{os.getpid()}", "PyK_schema SchemaGen K9Proofs SchemaCorr", "From VerifGen Require Import K9.", "", cases,
                                 "corr_ok", "mcase", shard=125, needs=["theories/SchemaCorr.vo"])
     if bad is None:
         ctx.correspondence("schema-model-vs-build_json_schema", len(cases), -1, log)
@@ -401,6 +402,12 @@ def coq_part(ctx: vlib.Ctx):
         if bad:
             ctx.not_shown("correspondence schema-model-vs-build_json_schema", str([descr[i] for i in bad[:3]])[:2800])
     ctx.count(n=len(cases))
+    for fn in os.listdir(vlib.CASES):
+        if fn.startswith((f"c20_k9_{ctx.seed}_{os.getpid()}", f"c20_model_{ctx.seed}_{os.getpid()}", f".c20_k9_{ctx.seed}_{os.getpid()}", f".c20_model_{ctx.seed}_{os.getpid()}")):
+            try:
+                os.remove(os.path.join(vlib.CASES, fn))
+            except OSError:
+                pass
     nrec = sum(1 for d in descr if d["expected_recursion"])
     ctx.notes.append(f"model correspondence: {len(cases)} cases, {nrec} with RecursionError <-> SFuel, "
                      f"{sum(1 for d in descr if d['builder'])} builder sequences")
